@@ -356,6 +356,25 @@ fn run_concurrent(script: &Value) -> Value {
         apply(&mut level, &generator, op);
     }
     let threads = script["threads"].as_array().unwrap().clone();
+    let queue_only = script["queue_only"].as_bool().unwrap_or(false);
+    // bare queue: the same set-up translated to queue calls (add -> push, same-quantity amend -> remove + push, cancel -> remove)
+    let bare = Arc::new(OrderQueue::new());
+    if queue_only {
+        for op in script["setup"].as_array().unwrap() {
+            match op["op"].as_str().unwrap() {
+                "add" => bare.push(Arc::new(order(&op["order"]))),
+                "update" => {
+                    let id = oid(&op["id"]);
+                    if let Some(o) = bare.remove(id) {
+                        if op["kind"].as_str() == Some("UpdateQuantity") {
+                            bare.push(o);
+                        }
+                    }
+                }
+                _ => {}
+            }
+        }
+    }
     let switch_at = script["schedule"]["B"].as_u64().map(|x| x as usize);
     let sch = Arc::new((Mutex::new(Sch { turn: 'A', a_steps: 0, switch_at, b_done: threads.len() < 2, switched: false }), Condvar::new()));
     let s2 = sch.clone();
@@ -383,6 +402,7 @@ fn run_concurrent(script: &Value) -> Value {
         let g2 = generator.clone();
         let op2 = op.clone();
         let sc = sch.clone();
+        let bare2 = bare.clone();
         handles.push(std::thread::spawn(move || {
             WHO.with(|w| w.set(name));
             let (m, cv) = &*sc;
@@ -392,7 +412,23 @@ fn run_concurrent(script: &Value) -> Value {
                     g = cv.wait(g).unwrap();
                 }
             }
-            let r = std::panic::catch_unwind(std::panic::AssertUnwindSafe(|| apply(&mut l2, &g2, &op2)));
+            let bq = bare2.clone();
+            let r = std::panic::catch_unwind(std::panic::AssertUnwindSafe(|| {
+                let some = |o: Option<Arc<OrderType<()>>>| match o {
+                    Some(o) => json!({"q": "some", "order": order_json(&o)}),
+                    None => json!({"q": "none"}),
+                };
+                match op2["op"].as_str().unwrap() {
+                    "qpush" => {
+                        bq.push(Arc::new(order(&op2["order"])));
+                        json!({"pushed": true})
+                    }
+                    "qpop" => some(bq.pop()),
+                    "qremove" => some(bq.remove(oid(&op2["id"]))),
+                    "qfind" => some(bq.find(oid(&op2["id"]))),
+                    _ => apply(&mut l2, &g2, &op2),
+                }
+            }));
             let mut g = m.lock().unwrap();
             if name == 'A' {
                 // A finished: if B has not run yet it runs now
@@ -417,7 +453,11 @@ fn run_concurrent(script: &Value) -> Value {
     pricelevel::verif_hooks::set_yield_hook(None);
     let (m, _) = &*sch;
     let g = m.lock().unwrap();
-    json!({"threads": results, "state": observe(&level), "a_steps": g.a_steps, "switched_inside": g.switched})
+    let mut state = observe(&level);
+    if queue_only {
+        state["orders"] = bare.to_vec().iter().map(|o| order_json(o)).collect::<Vec<_>>().into();
+    }
+    json!({"threads": results, "state": state, "a_steps": g.a_steps, "switched_inside": g.switched})
 }
 
 #[cfg(not(pricelevel_verif))]
